@@ -7,7 +7,7 @@ import ast
 from typing import Dict, List, Optional, Set, Tuple
 
 from ..cfg import Flow, Node, build_cfg
-from ..core import (AnalysisError, FuncInfo, Index, Result, call_name, call_recv, const_str, dotted, iter_calls,
+from ..core import (seq, AnalysisError, FuncInfo, Index, Result, call_name, call_recv, const_str, dotted, iter_calls,
                     norm_stmt, src, walk_no_nested)
 from ..util import closure_rule, names_in, params, single_assignments
 
@@ -96,24 +96,24 @@ def check_c09(idx: Index, tier: str, res: Result) -> None:
             if isinstance(x, ast.Assign) and isinstance(x.targets[0], ast.Subscript):
                 t = x.targets[0]
                 if isinstance(t.value, ast.Subscript) and const_str(t.value.slice) in ("settings_log", "results_log"):
-                    order[const_str(t.value.slice)] = x.lineno
+                    order[const_str(t.value.slice)] = seq(x)
                 if const_str(t.slice) == "step" and "session_state" in src(t.value):
-                    order["advance"] = x.lineno
+                    order["advance"] = seq(x)
             if isinstance(x, ast.Call) and call_name(x) == "run_scenario_step":
-                order.setdefault("simulate", x.lineno)
+                order.setdefault("simulate", seq(x))
     for k in ("settings_log", "results_log", "advance", "simulate"):
         if k not in order:
             raise AnalysisError("run_step: %s not found" % k)
     ok = order["simulate"] < order["results_log"] < order["advance"] and order["settings_log"] < order["advance"]
     res.check("STEP", "simulate < log < advance", ok, rs.loc(), rs.qual, str(order), "run_step's phases are out of order: %s" % order, key="STEP/run_step/order")
     stepreads = [n for n in walk_no_nested(rs.node) if isinstance(n, ast.Assign) and isinstance(n.targets[0], ast.Name) and n.targets[0].id == "step"]
-    ok = len(stepreads) == 1 and "session_state" in src(stepreads[0].value) and stepreads[0].lineno < order["simulate"]
+    ok = len(stepreads) == 1 and "session_state" in src(stepreads[0].value) and seq(stepreads[0]) < order["simulate"]
     res.check("STEP", "the step variable is the pre-advance clock", ok, rs.loc(), rs.qual, norm_stmt(stepreads[0]) if stepreads else "",
               "the step used for simulation and logging is not the clock value read before the advance", key="STEP/run_step/pre-advance")
     from ..nf import nf as _nf
     stop = [n for n in walk_no_nested(rs.node) if isinstance(n, ast.If) and isinstance(n.test, ast.Compare) and len(n.test.ops) == 1
             and {src(n.test.left), src(n.test.comparators[0])} == {"step", "stoptime"}]
-    ok = len(stop) == 1 and _nf(stop[0].test) == _nf("step > stoptime") and stop[0].lineno < order["simulate"]
+    ok = len(stop) == 1 and _nf(stop[0].test) == _nf("step > stoptime") and seq(stop[0]) < order["simulate"]
     res.check("STEP", "steps are served through the stop time inclusive", ok, rs.loc(stop[0]) if stop else rs.loc(), rs.qual, src(stop[0].test) if stop else "",
               "the stop test is %s: the session must serve the stop time itself and nothing after it" % (src(stop[0].test) if stop else "missing"),
               key="STEP/run_step/stop-test")
@@ -127,7 +127,7 @@ def check_c09(idx: Index, tier: str, res: Result) -> None:
     rss = idx.func(RUNNER, "SdRunner.run_scenario_step")
     starts = [c for c in iter_calls(rss.node) if call_name(c) == "start"]
     applies = [c for c in iter_calls(rss.node) if call_name(c) in ("change_equation", "change_points", "change_runspecs")]
-    ok = len(starts) == 1 and all(c.lineno < starts[0].lineno for c in applies)
+    ok = len(starts) == 1 and all(seq(c) < seq(starts[0]) for c in applies)
     res.check("STEP", "step settings are applied before the step is simulated", ok, rss.loc(), rss.qual, "change_* ... start()",
               "settings passed with a step are applied after the step was simulated: they take effect one step late", key="STEP/run_scenario_step/apply-before-start")
     closure_rule(idx, res, "STEP", [(RUNNER, "SdRunner.run_scenario_step"), (BPTK, "bptk.run_step"), (BPTK, "bptk.begin_session")])
@@ -147,10 +147,28 @@ def check_c09(idx: Index, tier: str, res: Result) -> None:
               key="STEP/run_scenario_step/result")
     # session_results re-indexing reads what run_step logged, under the same step key
     sr = idx.func(BPTK, "bptk.session_results")
-    reads = [n for n in ast.walk(sr.node) if isinstance(n, ast.Subscript) and src(n).startswith("step_result[")]
-    ok = bool(reads) and all(src(n) == "step_result[manager.name][scenario][equation][step]" for n in reads if src(n).count("[") == 4)
-    full = [n for n in reads if src(n).count("[") == 4]
-    res.check("STEP", "session_results re-indexes by (manager, scenario, equation, step)", ok and len(full) >= 2, sr.loc(), sr.qual,
+    from ..util import deref
+    full = []
+    ok = True
+    for lp in [n for n in ast.walk(sr.node) if isinstance(n, ast.For)]:
+        it = lp.iter
+        if not (isinstance(it, ast.Call) and call_name(it) == "items" and isinstance(lp.target, ast.Tuple) and len(lp.target.elts) == 2
+                and all(isinstance(x, ast.Name) for x in lp.target.elts)):
+            continue
+        base = deref(sr.node, it.func.value)
+        if not (isinstance(base, ast.Subscript) and const_str(base.slice) == "results_log"):
+            continue
+        kvar, vvar = lp.target.elts[0].id, lp.target.elts[1].id
+        inner = set()
+        for n in ast.walk(lp):
+            if isinstance(n, ast.Subscript) and isinstance(n.value, ast.Subscript):
+                inner.add(id(n.value))
+        for n in ast.walk(lp):
+            if isinstance(n, ast.Subscript) and id(n) not in inner and src(n).startswith(vvar + "[") and src(n).count("[") == 4:
+                full.append(n)
+                ok = ok and src(n) == "%s[manager.name][scenario][equation][%s]" % (vvar, kvar)
+    ok = ok and bool(full)
+    res.check("STEP", "session_results re-indexes by (manager, scenario, equation, step)", ok, sr.loc(), sr.qual,
               src(full[0]) if full else "", "session_results reads %s" % sorted({src(n) for n in full}), key="STEP/session_results/reindex")
     lp = [n for n in ast.walk(sr.node) if isinstance(n, ast.For) and "results_log" in src(n.iter)]
     ok = len(lp) == 1 and src(lp[0].target) in ("(step, step_result)", "step, step_result")
